@@ -168,3 +168,8 @@ for _pid in ("C05", "C06", "C07", "C10", "C11"):
     REGISTRY[_pid]["replay"] = [PY, "native/replay_robot.py"]
 for _pid in ("C05", "C06"):
     REGISTRY[_pid]["standins"]["quick"]["bounded: real startCompetition in a worker thread under the simulated driver station: random sequence of 30 mode changes incl. direct enabled-to-enabled switches (dispatch loop, lifecycle bracket, per-iteration order, /robot/mode)"] = [PY, "native/replay_modes.py"]
+# _create_components / _setup_vars / _setup_reset_vars (contracts/robotinit.py) in their own sidecar group
+for _pid in ("C05", "C06"):
+    REGISTRY[_pid]["module_groups"] = [_ROBOT_MODS, ["inject", "robotinit"]]
+REGISTRY["C08"]["module_groups"] = [["inject", "robotinit"]]
+REGISTRY["C10"]["module_groups"] = [_ROBOT_MODS, ["reset"], ["inject", "robotinit"]]
